@@ -56,14 +56,24 @@ func (f *funcAssertionNode) DefaultTrigger() annotation.ProducingAnnotationTrigg
 		return &annotation.ProduceTriggerNever{}
 	}
 
-	if f.decl.Type().(*types.Signature).Recv() != nil {
+	var retKey annotation.Key = annotation.RetKeyFromRetNum(f.decl, 0)
+	isMethod := f.decl.Type().(*types.Signature).Recv() != nil
+	if root := f.Root(); root != nil && f.call != nil && !isMethod &&
+		f.decl.Pkg() == root.Pass().Pkg && root.HasContract(f.decl) {
+		// A function with contracts has a return site of its own at every call site (see
+		// getFuncReturnProducers). For a callee of the current package its triggers are duplicated
+		// onto those sites, so the shared return site no longer sees the arguments of this call.
+		retKey = annotation.NewCallSiteRetKey(f.decl, 0, root.LocationOf(f.call))
+	}
+
+	if isMethod {
 		return &annotation.MethodReturn{
 			TriggerIfNilable: &annotation.TriggerIfNilable{
-				Ann: annotation.RetKeyFromRetNum(f.decl, 0)}}
+				Ann: retKey}}
 	}
 	return &annotation.FuncReturn{
 		TriggerIfNilable: &annotation.TriggerIfNilable{
-			Ann: annotation.RetKeyFromRetNum(f.decl, 0)}}
+			Ann: retKey}}
 }
 
 // BuildExpr for a function node adds that function to `expr` as a method call
